@@ -301,6 +301,8 @@ def tool_output_regexes_anchored(ctx, rule):
 
 
 def run(ctx):
+    ctx.rule('R16.9', 'name binding: every global name a function refers to is bound at module level or builtin, and every local is assigned on every path before it is read', floor=4)
+    ctx.rule('R16.8', 'every exactly resolved call binds against its callee\'s signature (no missing/unknown/surplus argument on any arm)', floor=2)
     ctx.rule('R16.7', 'regexes that strip tool chatter from external diff output are anchored at a line start (re.M + ^)', floor=1)
     ctx.rule('R16.6', 'renderer classes keep no mutable state shared between instances (class-level containers written by methods)', floor=1)
     ctx.rule('R16.5', 'the renderers never test a diff key / path element (line number, list index) by truthiness', floor=1)
@@ -309,3 +311,7 @@ def run(ctx):
     key_truthiness(ctx, 'R16.5', ['nbdime.prettyprint'], 'rendering a change at index/line 0 takes the wrong branch (the char-level diff of line 0 is applied as a line-level diff and patch() raises)')
     shared_class_state(ctx, 'R16.6', ['nbdime.prettyprint'] if ctx.tier == 'quick' else ['nbdime.'])
     tool_output_regexes_anchored(ctx, 'R16.7')
+    from ..signatures import call_compat
+    call_compat(ctx, 'R16.8', ['nbdime.prettyprint', 'nbdime.nbshowapp', 'nbdime.nbdiffapp', 'nbdime.vcs.git.diffdriver'], 'rendering fails for the diffs/decisions that reach this arm')
+    from ..names import name_binding
+    name_binding(ctx, 'R16.9', ['nbdime.prettyprint', 'nbdime.nbshowapp', 'nbdime.nbdiffapp', 'nbdime.vcs.git.diffdriver'])
